@@ -1,8 +1,9 @@
 import Dalek.Proofs.AlgRefineFiat51
+import Dalek.Proofs.AlgRefineFiat26
 import Dalek.Proofs.AlgRefineOk
 import Dalek.Props.C05.Refinement
 /-!
-# C05 / C03 / C11 — the fiat u64 backend refines every translated field-level formula
+# C05 / C03 / C11 — the fiat u64 and fiat u32 backends refine every translated field-level formula
 
 `all_formulas_refine_fiat51`: for EVERY translated formula of `field.rs` (`invert`, `pow22501`, `pow_p58`, `sqrt_ratio_i`, `invsqrt`),
 `curve_models`, `edwards.rs`, `montgomery.rs`, `ristretto.rs` (the table `Dalek.Props.C11.Formulas.sigs`, instantiated with ONE type
@@ -51,6 +52,41 @@ theorem limb_add_refines_fiat51 {P Q : Ed} (x1 y1 z1 t1 x2 y2 z2 t2 : List Nat)
   have h : Refines BF51 v51 AlgEdwards.add (EdwardsPoint IF51 ++ EdwardsPoint IF51) (EdwardsPoint IF51) :=
     Sig.refines_of_ok specF51 Edwards_add_refOkF51
   exact Refinement.limb_add_refines (B := BF51) h x1 y1 z1 t1 x2 y2 z2 t2 hin hP hQ
+
+
+/-! ## fiat u32 -/
+
+/-- fiat u32: every translated formula refines its field-level meaning, from the single invariant "tight" -/
+theorem all_formulas_refine_fiat26 : ∀ s ∈ sigs IF26, Refines BF26 v26 s.F s.pre s.post := by
+  intro s hs
+  have h := List.all_eq_true.mp all_refOkF26 s hs
+  exact Sig.refines_of_ok specF26 h
+
+/-- **C05 at formula level, fiat u64 vs fiat u32**: same translated program, tight limb inputs representing the same field elements:
+the outputs represent the same field elements (neither execution panics). -/
+theorem fiat51_fiat26_agree_on_formulas (s51 s26 : Sig) (h51 : s51 ∈ sigs IF51) (h26 : s26 ∈ sigs IF26) (hP : s51.F = s26.F)
+    (ins51 ins26 : List (List Nat))
+    (hin51 : EnvsIn ins51 s51.pre) (hin26 : EnvsIn ins26 s26.pre) (hval : ins51.map v51 = ins26.map v26) :
+    (s51.F.run (limbOpsW BF51) ins51).map v51 = (s26.F.run (limbOpsW BF26) ins26).map v26 := by
+  have r51 := (all_formulas_refine_fiat51 s51 h51 ins51 hin51).2.2.2
+  have r26 := (all_formulas_refine_fiat26 s26 h26 ins26 hin26).2.2.2
+  rw [r51, r26, hval, hP]
+
+/-- the hypothesis is satisfiable -/
+example : (sig_Edwards_add IF51).F = (sig_Edwards_add IF26).F ∧ (sig_Field_sqrt_ratio_i IF51).F = (sig_Field_sqrt_ratio_i IF26).F := ⟨rfl, rfl⟩
+
+theorem Edwards_add_refOkF26 : Sig.refOk BF26 CF26 (sig_Edwards_add IF26) = true := by decide +kernel
+
+/-- **fiat u32**: limb-level `&EdwardsPoint + &EdwardsPoint` on tight representatives of `P` and `Q` -/
+theorem limb_add_refines_fiat26 {P Q : Ed} (x1 y1 z1 t1 x2 y2 z2 t2 : List Nat)
+    (hin : EnvsIn [x1, y1, z1, t1, x2, y2, z2, t2] (EdwardsPoint IF26 ++ EdwardsPoint IF26))
+    (hP : RepExt P (v26 x1) (v26 y1) (v26 z1) (v26 t1)) (hQ : RepExt Q (v26 x2) (v26 y2) (v26 z2) (v26 t2)) :
+    ∃ X Y Z T, AlgEdwards.add.run (limbOpsW BF26) [x1, y1, z1, t1, x2, y2, z2, t2] = [X, Y, Z, T] ∧
+      AlgEdwards.add.run (limbOps BF26) ([x1, y1, z1, t1, x2, y2, z2, t2].map some) = [some X, some Y, some Z, some T] ∧
+      EnvsIn [X, Y, Z, T] (EdwardsPoint IF26) ∧ RepExt (P + Q) (v26 X) (v26 Y) (v26 Z) (v26 T) := by
+  have h : Refines BF26 v26 AlgEdwards.add (EdwardsPoint IF26 ++ EdwardsPoint IF26) (EdwardsPoint IF26) :=
+    Sig.refines_of_ok specF26 Edwards_add_refOkF26
+  exact Refinement.limb_add_refines (B := BF26) h x1 y1 z1 t1 x2 y2 z2 t2 hin hP hQ
 
 /-- non-vacuity: the table is not empty and the basepoint's tight limbs satisfy the `EdwardsPoint` invariant -/
 example : 0 < (sigs IF51).length := by decide
